@@ -6,6 +6,7 @@ import (
 	"go/ast"
 	"go/parser"
 	"go/token"
+	"go/types"
 	"os"
 	"path/filepath"
 	"sort"
@@ -24,6 +25,9 @@ func cmdSweep(args []string) int {
 	kind := "noop-first"
 	if len(args) > 0 {
 		kind = args[0]
+	}
+	if kind == "rename-locals" {
+		return cmdSweepRename()
 	}
 	repo := envOr("NPVERIF_REPO", "/repo")
 	overlay := map[string][]byte{}
@@ -104,6 +108,109 @@ func cmdSweep(args []string) int {
 		}
 	}
 	fmt.Printf("sweep %s: %d files edited, %d reports\n", kind, len(overlay), bad)
+	if bad > 0 {
+		return 1
+	}
+	return 0
+}
+
+// cmdSweepRename renames every local variable, parameter and named result of the module's production code
+// (name -> nameQ) in memory and runs all properties: a rule that depends on what a local is called reports here.
+func cmdSweepRename() int {
+	repo := envOr("NPVERIF_REPO", "/repo")
+	prog, err := core.Load(repo, nil)
+	if err != nil {
+		fmt.Println(err)
+		return 2
+	}
+	type edit struct{ off int }
+	perFile := map[string][]int{}
+	for _, pk := range prog.Pkgs {
+		if strings.Contains(pk.PkgPath, "/internal/testutils") || strings.Contains(pk.PkgPath, "/internal/examples") {
+			continue
+		}
+		info := pk.TypesInfo
+		note := func(id *ast.Ident, o types.Object) {
+			v, ok := o.(*types.Var)
+			if !ok || v.IsField() || v.Pkg() == nil || v.Parent() == nil || v.Parent() == v.Pkg().Scope() || id.Name == "_" {
+				return
+			}
+			ps := pk.Fset.Position(id.Pos())
+			if strings.HasSuffix(ps.Filename, "_test.go") {
+				return
+			}
+			perFile[ps.Filename] = append(perFile[ps.Filename], ps.Offset+len(id.Name))
+		}
+		for id, o := range info.Defs {
+			if o != nil {
+				note(id, o)
+			}
+		}
+		for id, o := range info.Uses {
+			note(id, o)
+		}
+		// the symbolic variable of a type switch has no object of its own
+		for _, f := range pk.Syntax {
+			ast.Inspect(f, func(n ast.Node) bool {
+				if ts, ok := n.(*ast.TypeSwitchStmt); ok {
+					if as, ok := ts.Assign.(*ast.AssignStmt); ok && len(as.Lhs) == 1 {
+						if id, ok := as.Lhs[0].(*ast.Ident); ok && id.Name != "_" {
+							ps := pk.Fset.Position(id.Pos())
+							if !strings.HasSuffix(ps.Filename, "_test.go") {
+								perFile[ps.Filename] = append(perFile[ps.Filename], ps.Offset+len(id.Name))
+							}
+						}
+					}
+				}
+				return true
+			})
+		}
+	}
+	overlay := map[string][]byte{}
+	for file, offs := range perFile {
+		src, err := os.ReadFile(file)
+		if err != nil {
+			continue
+		}
+		sort.Sort(sort.Reverse(sort.IntSlice(offs)))
+		out := src
+		prev := -1
+		for _, o := range offs {
+			if o == prev {
+				continue
+			}
+			prev = o
+			out = append(out[:o:o], append([]byte("Q"), out[o:]...)...)
+		}
+		overlay[file] = out
+	}
+	prog2, err := core.Load(repo, overlay)
+	if err != nil {
+		fmt.Println("sweep rename: load:", err)
+		return 2
+	}
+	ff, _ := core.LoadFindings(filepath.Join(envOr("NPVERIF_DIR", "/verif"), "known_findings.json"))
+	bad := 0
+	for _, pr := range props.All() {
+		rep := runProperty(pr, prog2)
+		for _, o := range rep.Obs {
+			if o.Status == core.Discharged || o.Status == core.Excepted {
+				continue
+			}
+			if o.Status == core.Violation && ff.Open(o) != nil {
+				continue
+			}
+			bad++
+			fmt.Printf("%s %s %s :: %s\n", pr.ID, o.Rule, o.Construct, o.Reason)
+		}
+		for rule, n := range rep.Floors {
+			if rep.RuleCounts[rule] < n {
+				bad++
+				fmt.Printf("%s %s floor %d < %d\n", pr.ID, rule, rep.RuleCounts[rule], n)
+			}
+		}
+	}
+	fmt.Printf("sweep rename-locals: %d files edited, %d reports\n", len(overlay), bad)
 	if bad > 0 {
 		return 1
 	}
